@@ -28,6 +28,6 @@ Judge ==
     LET c == Cases[i] IN
     /\ (c.status = "fail" => c.fclass \in AllowedFailures)
          \/ PrintT("DYNTYPE " \o ToJson([id |-> c.id, fclass |-> c.fclass]))
-    /\ (c.status = "ok" => KindOk(c.typeof, c.kind))
+    /\ ((c.status = "ok" /\ c.typeof # "") => KindOk(c.typeof, c.kind))       \* composed programs carry no typeof probe
          \/ PrintT("KIND " \o ToJson([id |-> c.id, typeof |-> c.typeof, kind |-> c.kind]))
 =============================================================================
